@@ -11,6 +11,7 @@ import (
 	"os/exec"
 	"path/filepath"
 	"sort"
+	"strconv"
 	"strings"
 	"syscall"
 	"testing/fstest"
@@ -189,8 +190,16 @@ func genC07(seed int64, tier string, emit func(run.Case)) {
 	id := 0
 	isoBudget := map[string]int{}
 	isoMax := tierN(tier, 2, 12)
+	// C07_SAMPLE=k keeps every k-th case of the list (reduced runs of the thorough tier).
+	sample := 1
+	if v, err := strconv.Atoi(os.Getenv("C07_SAMPLE")); err == nil && v > 1 {
+		sample = v
+	}
 	add := func(text string, files map[string]string, src string, u16 bool) {
 		id++
+		if id%sample != 0 {
+			return
+		}
 		in := c07In{Text: text, Files: files, Src: src, U16: u16}
 		if in.Trig = c07HangTrigger(text, files); in.Trig != "" {
 			isoBudget[in.Trig]++
@@ -198,6 +207,10 @@ func genC07(seed int64, tier string, emit func(run.Case)) {
 			if isoBudget[in.Trig] > isoMax {
 				in.Mode = "skip"
 			}
+		} else if c07Risk(text, files) {
+			// structurally risky but not a known trigger: always executed, in the child, so
+			// that an unknown non-termination gets a stable signature and costs bounded CPU
+			in.Trig, in.Mode = c07RiskClass, "isolate"
 		}
 		emit(run.MkCase(fmt.Sprintf("c%07d", id), src, in))
 	}
@@ -355,6 +368,7 @@ func c07Targeted() []string {
 		"vars: {m: {p: q}}\nx\n***.a: {...${m}}",
 		"classes: {c: {class: c}}\nx.class: c",
 		"classes: {c: {x.class: c}}\ny.class: c",
+		"a.b.c.d.e.f.g.h.i.j.k.l.m.n.o.p.q.r.s.t\ny\n***.'steps': {a: {b: c}}",
 		"k: {shape: class}\nk.f: {_.j <- l}",
 		"vars: {a}\nx: \"pre ${a}\"",
 		"t: {shape: sql_table; id: int}\nt.id: {_.j -> l}",
@@ -444,7 +458,49 @@ func c07Len(s string, u16 bool) int {
 //	  (`layers: {l: {z}}\n***.t: @x\nq: a.b.c`): the lazily re-applied glob also matches
 //	  the fields its own import created (q.t.k.t.k ...), multiplying with every later
 //	  declaration and board; a 60-byte program burns minutes of CPU.
+const c07RiskClass = "unclassified-recursive-glob"
+
+// c07Risk: the structural features behind every non-termination / blow-up found so far —
+// a recursive glob (`**`, `***`) in a program that also has a substitution, an import, a
+// spread, or boards. Such cases run in the CPU-limited child like the known classes, but
+// all of them are executed; one that does not finish is reported with the stable signature
+// C07.nontermination:unclassified-recursive-glob (a NEW violation, to be triaged into a
+// class of its own).
+func c07Risk(text string, files map[string]string) bool {
+	multi, other := false, false
+	for _, src := range append([]string{text}, c07SortedValues(files)...) {
+		if strings.Contains(src, "**") {
+			multi = true
+		}
+		low := strings.ToLower(src)
+		if strings.Contains(src, "${") || strings.Contains(src, "@") || strings.Contains(src, "...") ||
+			strings.Contains(low, "layers") || strings.Contains(low, "scenarios") || strings.Contains(low, "steps") || strings.Contains(low, "classes") {
+			other = true
+		}
+	}
+	return multi && other
+}
+
 func c07HangTrigger(text string, files map[string]string) string {
+	// glob-with-quoted-board-keyword: a glob statement that creates a key spelled like a
+	// QUOTED board keyword (`***.'steps': {a}`). The "must be declared at a board root
+	// scope" check only looks at unquoted keys, but NodeBoardKind treats the field as a
+	// board container whatever its quoting, so every matched object becomes the parent of
+	// inherited boards, which the recursive glob matches again: the result doubles with
+	// every nesting level (x.y.c.z.u.v.w + `***.'steps': {a: {b: c}}` = 4861 elements).
+	for _, src := range append([]string{text}, c07SortedValues(files)...) {
+		for _, ln := range strings.FieldsFunc(src, func(r rune) bool { return r == '\n' || r == ';' }) {
+			if !strings.Contains(ln, "*") {
+				continue
+			}
+			low := strings.ToLower(ln)
+			for _, kw := range []string{"steps", "layers", "scenarios"} {
+				if strings.Contains(low, "'"+kw+"'") || strings.Contains(low, "\""+kw+"\"") {
+					return "glob-with-quoted-board-keyword"
+				}
+			}
+		}
+	}
 	srcs := append([]string{text}, c07SortedValues(files)...)
 	// class-reference-inside-class-body: a `class` reference on an object nested inside a
 	// class definition (`classes: {c: {x.class: c}}\ny.class: c`): the graph compiler
@@ -609,7 +665,10 @@ func c07Isolated(c run.Case, in c07In) (res run.Result) {
 		return
 	}
 	self, _ := os.Executable()
-	const cpuLimit = 6
+	cpuLimit := 6
+	if in.Trig == c07RiskClass {
+		cpuLimit = 20 // not a known trigger: same order as the in-process budget
+	}
 	ctx, cancel := context.WithTimeout(context.Background(), 300*time.Second)
 	defer cancel()
 	cmd := exec.CommandContext(ctx, "/bin/sh", "-c", fmt.Sprintf("ulimit -t %d; exec \"$0\" replay C07 \"$1\"", cpuLimit), self, p)
@@ -642,7 +701,11 @@ func c07Isolated(c run.Case, in c07In) (res run.Result) {
 	}
 	res.Inc("nontermination_observed")
 	res.Nontrivial = true
-	res.Viol("C07.nontermination", "C07.nontermination:"+in.Trig, fmt.Sprintf("compile of a %d-byte program did not finish within %d CPU-seconds: child %s\ninput:\n%s\n%s", len(in.Text), cpuLimit, how, trunc(in.Text, 600), trunc(se, 1200)))
+	clause := "C07.nontermination"
+	if in.Trig == "glob-with-quoted-board-keyword" || in.Trig == "multi-glob-with-import-value" {
+		clause = "C07.blowup" // terminates in principle, cost exponential in the input size
+	}
+	res.Viol(clause, clause+":"+in.Trig, fmt.Sprintf("compile of a %d-byte program did not finish within %d CPU-seconds: child %s\ninput:\n%s\n%s", len(in.Text), cpuLimit, how, trunc(in.Text, 600), trunc(se, 1200)))
 	res.Sample = map[string]any{"src": in.Src, "text": trunc(in.Text, 240), "isolated": in.Trig}
 	return
 }
